@@ -115,7 +115,7 @@ fn refs_of(v: &VCell, precise: bool, out: &mut Vec<usize>, live_conts: &mut usiz
 
 /// Root set enumerated by the auditor's own code: global bindings (symbol cells) and slots,
 /// stack[0..=sp], acc, the running code object, the current environment.
-fn roots(vm: &Vm, precise: bool, live_conts: &mut usize) -> Vec<(usize, &'static str)> {
+fn roots(vm: &Vm, precise: bool, live_conts: &mut usize, registers: bool) -> Vec<(usize, &'static str)> {
     let mut out = vec![];
     let mut tmp = vec![];
     let g = vm.verif_globenv();
@@ -132,6 +132,9 @@ fn roots(vm: &Vm, precise: bool, live_conts: &mut usize) -> Vec<(usize, &'static
         for r in &tmp {
             out.push((*r, "global-slot"));
         }
+    }
+    if !registers {
+        return out;
     }
     let stack = vm.verif_stack();
     let sp = stack.get_sp();
@@ -155,14 +158,14 @@ fn roots(vm: &Vm, precise: bool, live_conts: &mut usize) -> Vec<(usize, &'static
 }
 
 /// returns (visited bitmap, first-root-kind per cell)
-fn reach(vm: &Vm, precise: bool, live_conts: &mut usize) -> (Vec<bool>, Vec<u8>) {
+fn reach(vm: &Vm, precise: bool, live_conts: &mut usize, registers: bool) -> (Vec<bool>, Vec<u8>) {
     let cells = vm.verif_heap().verif_cells();
     let n = cells.len();
     let mut seen = vec![false; n];
     let mut via = vec![0u8; n];
     let mut work: Vec<usize> = vec![];
     let root_kinds = ["?", "global-binding", "global-slot", "stack", "acc", "ip", "ep"];
-    for (r, kind) in roots(vm, precise, live_conts) {
+    for (r, kind) in roots(vm, precise, live_conts, registers) {
         if r < n && !seen[r] {
             seen[r] = true;
             via[r] = root_kinds.iter().position(|k| *k == kind).unwrap_or(0) as u8;
@@ -195,6 +198,15 @@ pub const ROOT_KINDS: [&str; 7] = [
 ];
 
 pub fn audit(vm: &Vm) -> AuditReport {
+    audit_with(vm, false)
+}
+
+/// `between_evaluations`: the VM is at rest between two evaluations (the simulator's own
+/// collections while it installs the ballast). The registers - stack, acc, ip, ep - then hold
+/// leftovers of a finished evaluation that no program can reach any more, so the *safety* pass
+/// (what must have survived) starts from the globals alone; the *retention* pass (what may have
+/// survived) still starts from the registers too, because the collector is free to treat them as roots.
+pub fn audit_with(vm: &Vm, between_evaluations: bool) -> AuditReport {
     let heap = vm.verif_heap();
     let cells = heap.verif_cells();
     let n = cells.len();
@@ -203,10 +215,10 @@ pub fn audit(vm: &Vm) -> AuditReport {
         ..Default::default()
     };
     let mut lc = 0usize;
-    let (precise, via) = reach(vm, true, &mut lc);
+    let (precise, via) = reach(vm, true, &mut lc, !between_evaluations);
     report.live_continuations = lc;
     let mut lc2 = 0usize;
-    let (conservative, _) = reach(vm, false, &mut lc2);
+    let (conservative, _) = reach(vm, false, &mut lc2, true);
     let free_list = heap.verif_free_list();
     let mut on_free = vec![0u32; n];
     for f in free_list {
